@@ -246,6 +246,8 @@ def gen_system(rng, *, max_nodes=24, p_table=0.25, p_mux=0.3, n_sources=None, po
     desc = {"name": "sys", "comps": comps, "phases": {}}
     if p_oddnames and rng.random() < p_oddnames:
         odd_names(rng, desc)
+    if rng.random() < 0.12:
+        add_decoy(rng, desc)
     if rng.random() < 0.07:
         desc["_call"] = {"quiet": False}           # progress display on: what is printed is no part of any result
     if p_fallback and rng.random() < p_fallback:
@@ -356,6 +358,34 @@ def add_bridge(rng, desc):
         return
     c = rng.choice(cands)
     desc.setdefault("_build", {})["bridge"] = {"child": c["name"], "slot": rng.randrange(len(c["parents"]))}
+
+
+def decoy_table(rng, t, z):
+    """another table on the same axis VALUES as t (2-D), its vi rows listed in another order, other entries"""
+    vi = list(t["vi"])
+    for _ in range(4):
+        rng.shuffle(vi)
+        if vi != list(t["vi"]):
+            break
+    lo, hi = (0.3, 0.99) if z == "eff" else ((0.01, 0.3) if z == "vdrop" else (1e-6, 1e-3))
+    return {"vi": vi, "io": list(t["io"]), z: [[ud(rng, lo, hi, 3) for _ in t["io"]] for _ in vi]}
+
+
+def add_decoy(rng, desc):
+    """see sysdesc.build (`_decoys`): for one component with a 2-D table a sibling part characterised on the same grid exists in the process"""
+    cands = []
+    for c in desc["comps"]:
+        for k, v in c["args"].items():
+            if isinstance(v, dict) and k != "limits" and isinstance(v.get("vi"), list) and len(v["vi"]) > 1:
+                z = [q for q in v if q not in ("vi", "io")][0]
+                cands.append((c, k, z))
+    if not cands:
+        return
+    c, k, z = rng.choice(cands)
+    args = {a: b for a, b in c["args"].items() if not isinstance(b, dict)}
+    args[k] = decoy_table(rng, c["args"][k], z)
+    args.pop("limits", None)
+    desc["_decoys"] = [{"kind": c["kind"], "args": args}]
 
 
 def zero_vs_omitted(rng):
